@@ -6,7 +6,8 @@ CFG = {'assumptions': ['f64 inputs cross the boundary as bit patterns and are de
                  'f64, SimpleKernel on i64 does not overflow (|c| <= 2^29 enforced by the driver)',
                  'coordinates are finite'],
  'count': {'quick': 40000, 'thorough': 1600000},
- 'lean_files': ['GeoModel/Hull.lean',
+ 'translator': True,
+ 'lean_files': ['GeoModel/TRANPrelude.lean', 'GeoModel/TRAN2Prelude.lean', 'GeoModel/Gen/HullGen.lean', 'GeoProofs/Lemmas/TRAN2Hull.lean', 'GeoModel/Hull.lean',
                 'GeoModel/Orient.lean',
                 'GeoModel/Traverse.lean',
                 'GeoModel/Ops/C08.lean',
@@ -32,7 +33,12 @@ CFG = {'assumptions': ['f64 inputs cross the boundary as bit patterns and are de
          '/ LineString / Polygon / MultiLineString / GeometryCollection; scalar f64 and i64; ops hull (quick_hull, '
          'graham_hull(false), graham_hull(true), ConvexHull::convex_hull) and mrr (minimum_rotated_rect); distinct '
          'by input text; empty inputs are tagged triv',
- 'trusted_base': ['modelled, not verified: sort_unstable_by in graham_hull is modelled as insertion sort; cases '
+ 'trusted_base': ['translator/rs2lean.py + rsexpr.py + jobs2.py for utils::lex_cmp, utils::least_index, the comparator closure and the per-point loop body of graham_hull '
+                  '(explicit choices: Iterator::min_by = the first minimal element; the while loop runs on a claimed bound output.len() and answers none when it is '
+                  'exhausted, proved never to happen; Vec::pop = dropLast, output[len - k] = total indexing; a.partial_cmp(&b).unwrap() on numbers = the total three-way '
+                  'comparison, no NaN; Ordering::then = Ordering.then; exact rationals; the rest of the algorithm - recursion, while loops, '
+                  'heaps, sorting - is not regenerated)',
+                  'modelled, not verified: sort_unstable_by in graham_hull is modelled as insertion sort; cases '
                   'where two distinct collinear points get the same rounded distance (the only way the sorted '
                   'sequence is not unique) are SKIPped and counted',
                   'minimum_rotated_rect is compared numerically (area within 2^-36 relative to the squared '
@@ -66,7 +72,11 @@ MANIFEST = {'note': 'Trusted: Lean 4.33 kernel (axioms propext, Classical.choice
          'quick-hull ring and falls back to the Graham scan.',
  'technique': 'Lean 4 proof (structural induction over the mirrored quick-hull/Graham/trivial-hull code; checker '
               'soundness) + model/implementation correspondence incl. an exact binary64 rounding model',
- 'text': 'Exact Lean mirrors of quick_hull (slice permutations, last-maximum tie-break, dot product rounded in the '
+ 'text': 'Translator tie (TRAN2, hullComparators_eq_source): lexLt is Less of the regenerated utils::lex_cmp and grahamLe rnd is not-Greater of the '
+         'regenerated comparator closure of graham_hull (GeoModel/Gen/HullGen.lean, read off utils.rs / graham.rs on this run), for every rounding function; leastIndex is the regenerated utils::least_index '
+         '(leastIndex_eq_source) and grahamStep is the regenerated body of the per-point loop of graham_hull, pop-while loop and push, on a non-empty stack '
+         '(grahamLoopBody_eq_source_partial). '
+         'Exact Lean mirrors of quick_hull (slice permutations, last-maximum tie-break, dot product rounded in the '
          'scalar type, ring verification + Graham fallback added by the fix commit), graham_hull, trivial_hull, '
          'ConvexHull and the trigonometry-free skeleton of minimum_rotated_rect. Proved for all inputs and every '
          'rounding function: hull vertices are input coordinates and the ring is closed (hull_set, quick-hull, '
